@@ -821,3 +821,108 @@ def check_C12(tier, seed):
     return res.finish(gate)
 
 CHECKS['C12'] = check_C12
+
+# ---------------------------------------------------------------- C17
+def parse_pairs(text):
+    """'((k . id) ...)' or '(k ...)' -> list"""
+    m = re.findall(r'\((-?\d+) \. (-?\d+)\)', text)
+    if m: return [(int(a), int(b)) for a, b in m]
+    return None
+
+def check_C17(tier, seed):
+    res = Result('C17', tier, seed); res.pending = []
+    gate = proof_gate('C17')
+    core.build_model(); core.build_impl()
+    rng = random.Random(seed)
+    lens = [0, 1, 2, 3, 5, 19, 20, 21, 22, 33, 64] + ([200] if tier == 'quick' else [200, 1000, 3000])
+    preds = [
+        ('car<', "(lambda (p q) (< (car p) (car q)))", 'swo', lambda p, q: p[0] < q[0]),
+        ('car>', "(lambda (p q) (> (car p) (car q)))", 'swo', lambda p, q: p[0] > q[0]),
+        ('car<=', "(lambda (p q) (<= (car p) (car q)))", 'total-nonstrict', None),
+        ('const-t', "(lambda (p q) t)", 'any', None),
+        ('const-nil', "(lambda (p q) nil)", 'swo', lambda p, q: False),
+        ('counter', "(lambda (p q) (setq cnt (1+ cnt)) (< (mod (* cnt 7) 5) 2))", 'any', None),
+        ('tick<', "(lambda (p q) (tick 1 (< (car p) (car q))))", 'swo', lambda p, q: p[0] < q[0]),
+        ('mod3', "(lambda (p q) (< (mod (car p) 3) (mod (car q) 3)))", 'swo', lambda p, q: p[0] % 3 < q[0] % 3),
+    ]
+    items = []
+    for n in lens:
+        reps = tier_n(tier, 6, 40) if n <= 64 else 2
+        for _ in range(reps):
+            nkeys = rng.choice([1, 2, 3, 3, 10])
+            pairs = [(rng.randrange(nkeys), i) for i in range(n)]
+            if rng.random() < 0.2: pairs.sort(key=lambda p: -p[0])          # descending blocks
+            pairs = [(k, i) for i, (k, _) in enumerate(pairs)]                # id = position in the input
+            lit = "'(" + ' '.join('(%d . %d)' % p for p in pairs) + ')' if pairs else 'nil'
+            for name, ptext, kind, pf in preds:
+                if n > 64 and name in ('counter', 'tick<'): continue
+                text = '(setq cnt 0) (setq l %s) (list (sort l %s) l)' % (lit, ptext)
+                items.append((text, {'pairs': pairs, 'kind': kind, 'pf': pf, 'pred': name}))
+            # failing predicate at its k-th call
+            k = rng.randint(1, max(1, n))
+            items.append(('(setq cnt 0) (setq l %s) (list (sort l (lambda (p q) (if (> (setq cnt (1+ cnt)) %d) (nofn) (< (car p) (car q))))) l)' % (lit, k),
+                          {'pairs': pairs, 'kind': 'err', 'pf': None, 'pred': 'fail@%d' % k, 'k': k}))
+    # plain integers and built-in predicate names, mixed element kinds
+    for _ in range(tier_n(tier, 150, 3000)):
+        n = rng.choice([0, 1, 2, 5, 21, 30])
+        xs = [rng.randint(-5, 5) for _ in range(n)]
+        p = rng.choice(["'<", "'>", "#'<=", "'>="])
+        items.append(("(setq l '(%s)) (list (sort l %s) l)" % (' '.join(map(str, xs)), p) if xs else "(setq l nil) (list (sort l %s) l)" % p,
+                      {'ints': xs, 'kind': 'ints', 'pf': None, 'pred': p}))
+    for p in ["'eq", "'equal", "'string<", "'cons", "'list", "'<"]:
+        for l in ["'(1 b)", "'(a b c)", "'(\"b\" \"a\" \"c\")", "'((1) (2))", "'(b 1 a 2)"]:
+            items.append(("(setq a 5 b 6 c 7) (setq l %s) (list (sort l %s) l)" % (l, p), {'kind': 'mixed', 'pf': None, 'pred': p}))
+    rows = run_exprs(res, items, per_case=10)
+    nv = 0
+    distinct = set()
+    for text, meta, im, mo in rows:
+        if im is None: continue
+        kind = meta['kind']
+        distinct.add((meta['pred'], len(meta.get('pairs', meta.get('ints', []))), im['kind']))
+        def bad(why):
+            nonlocal nv
+            nv += 1
+            if nv <= 8: res.violation('sort', {'program': text[:3000], 'why': why, 'impl': {k: (v[:2000] if isinstance(v, str) else v) for k, v in im.items()}})
+        if im['kind'] not in ('V', 'E'):
+            bad('sort must return a list or fail with the predicate\'s error, never panic'); continue
+        if kind == 'err':
+            npairs = len(meta['pairs'])
+            continue        # outcome decided by the model comparison (error iff the predicate is called more than k times)
+        if kind in ('ints', 'mixed'):
+            if kind == 'ints' and im['kind'] == 'V':
+                m = re.fullmatch(r'\((\(.*?\)|nil) (\(.*?\)|nil)\)', im['payload'])
+                if not m: bad('unexpected shape'); continue
+                r = [int(x) for x in re.findall(r'-?\d+', m.group(1))]
+                inp = [int(x) for x in re.findall(r'-?\d+', m.group(2))]
+                if inp != meta['ints']: bad('input list changed')
+                if sorted(r) != sorted(meta['ints']): bad('not a permutation')
+                p = meta['pred']
+                asc = '<' in p
+                if any((r[i] > r[i + 1]) if asc else (r[i] < r[i + 1]) for i in range(len(r) - 1)): bad('not ordered')
+            continue
+        if im['kind'] == 'E': bad('error without a predicate error'); continue
+        # payload = ((sorted...) (input...))
+        allp = parse_pairs(im['payload']) or []
+        n = len(meta['pairs'])
+        if len(allp) != 2 * n: bad('result or input has the wrong number of elements'); continue
+        r, inp = allp[:n], allp[n:]
+        if inp != meta['pairs']: bad('input list changed')
+        if sorted(r) != sorted(meta['pairs']): bad('not a permutation of the input'); continue
+        pf = meta['pf']
+        if kind == 'swo' and pf:
+            for i in range(n - 1):
+                if pf(r[i + 1], r[i]): bad('element %s placed before %s which the predicate orders ahead of it' % (r[i], r[i + 1])); break
+            # stability: among elements the predicate does not distinguish, ids increase
+            for i in range(n - 1):
+                if not pf(r[i], r[i + 1]) and not pf(r[i + 1], r[i]) and r[i][1] > r[i + 1][1]:
+                    bad('not stable: %s before %s' % (r[i], r[i + 1])); break
+    res.cov['distinct_nontrivial'] = len(distinct)
+    res.cov['rule'] = ('lists of lengths %s of (key . id) pairs with 1-10 distinct keys (some in descending blocks) x predicates {strict on car, reversed, non-strict, constant t / nil, '
+                       'counter-driven inconsistent, ticking, key mod 3, failing at its k-th call}, integers with built-in predicate names, mixed element kinds; oracle: list-or-predicate-error, '
+                       'permutation, ordered and stable for strict weak orders, input variable printed afterwards unchanged; correspondence: exact result and predicate call log equal to the model' % lens)
+    res.cov['samples'] = [rows[0][0][:300], rows[len(rows) // 2][0][:300]]
+    for d in res.pending:
+        res.violation('disagreement', d, no_input=not oracle_confirms(d))
+    return res.finish(gate)
+
+CHECKS['C17'] = check_C17
